@@ -143,7 +143,14 @@ static void chunk_case (int mi, Ck *cks, int nck, int interleave, int late, int 
 		INLIB (it = sf_get_chunk_iterator (sf, &ci)) ;
 		while (it && guard ++ < 2000)
 		{	unsigned size ; unsigned char *data = NULL ;
-			if (fetch (it, &size, &data, -1, rs) == 0) found ++ ;
+			if (fetch (it, &size, &data, -1, rs) == 0)
+			{	/* the j-th visit is the j-th stored chunk of that id: same payload, not a neighbour's */
+				int j = -1, seen = 0 ;
+				for (int i = 0 ; i < nck && j < 0 ; i++) if (accepted [i] && strcmp (cks [i].id, e->id) == 0 && seen ++ == found) j = i ;
+				if (j >= 0 && data && strlen (e->id) == 4 && (size < cks [j].len || size > cks [j].len + 3 || (cks [j].len && memcmp (data, cks [j].data, cks [j].len) != 0)))
+					vl_violation (rt_sig ("%s|by-id-wrong-chunk", rs), "visit %d of the iteration by id '%s' delivered %u bytes that are not the payload of stored chunk %d (%u bytes)", found, e->id, size, j, cks [j].len) ;
+				found ++ ;
+				}
 			free (data) ;
 			INLIB (it = sf_next_chunk_iterator (it)) ;
 			}
@@ -167,7 +174,7 @@ static void free_cks (Ck *c, int n) { for (int i = 0 ; i < n ; i++) free (c [i].
 
 void run_c13 (void)
 {	static const unsigned plens [13] = { 0, 1, 2, 3, 4, 5, 7, 8, 255, 256, 257, 65535, 65536 } ; static const int pcounts [3] = { 1, 3, 21 } ;
-	static const char *idsets [][4] = { { "a", "bb", "ccc", "dddd" }, { "dupl", "dupl", "dupl", "uniq" }, { "data", "fmt ", "LIST", "SSND" }, { "COMM", "desc", "FORM", "junk" }, { "longerid", "evenlongerchunkid", "x", "longerid" } } ;
+	static const char *idsets [][4] = { { "a", "bb", "ccc", "dddd" }, { "dupl", "dupl", "dupl", "uniq" }, { "twin", "othr", "twin", "othr" }, { "data", "fmt ", "LIST", "SSND" }, { "COMM", "desc", "FORM", "junk" }, { "longerid", "evenlongerchunkid", "x", "longerid" } } ;
 	md_init (&cdev) ;
 	for (int mi = 0 ; mi < NMAJ ; mi++)
 	{	/* every count 0..200 */
@@ -185,10 +192,10 @@ void run_c13 (void)
 				vl_root_count (mnames [mi]) ; chunk_case (mi, cks, n, 0, 0, -1, plens [pl] >= 65535 ? "payload>=64K" : "payload") ; free_cks (cks, n) ; free (cks) ; vl_end (1, pl) ;
 				}
 		/* id families */
-		for (int is = 0 ; is < 5 ; is++)
+		for (int is = 0 ; is < 6 ; is++)
 			if (vl_case ("C13 ids fmt=%s set=%d", mnames [mi], is))
 			{	Ck cks [4] ; for (int i = 0 ; i < 4 ; i++) ck_make (&cks [i], idsets [is][i], 6 + i, i + is) ;
-				vl_root_count (mnames [mi]) ; chunk_case (mi, cks, 4, 0, 0, -1, is == 0 ? "ids-short" : is == 1 ? "ids-dup" : is <= 3 ? "ids-reserved" : "ids-long") ; free_cks (cks, 4) ; vl_end (1, is) ;
+				vl_root_count (mnames [mi]) ; chunk_case (mi, cks, 4, 0, 0, -1, is == 0 ? "ids-short" : is <= 2 ? "ids-dup" : is <= 4 ? "ids-reserved" : "ids-long") ; free_cks (cks, 4) ; vl_end (1, is) ;
 				}
 		/* interleaving with other metadata, all 8 patterns; set after audio; short / long caller buffers */
 		for (int il = 0 ; il < 8 ; il++)
